@@ -130,6 +130,10 @@ func (gn *graphNode) compileIfNeeded(ctx context.Context) (*composableRunnable, 
 		r = cr
 		gn.cr = cr
 	} else if gn.cr != nil {
+		// one Lambda / component value may be added as several nodes: each node gets its own copy to carry its
+		// meta and node info (run info of callbacks)
+		cp := *gn.cr
+		gn.cr = &cp
 		r = gn.cr
 	} else {
 		return nil, errors.New("no graph or component provided")
